@@ -21,7 +21,7 @@ structure MKeepJ (s t : State F) : Prop where
   ienv : ∀ v, v ∉ ["j", "y1", "x1"] → t.ienv v = s.ienv v
 
 theorem take_succ_getD (l : List Nat) (i : Nat) (h : i < l.length) : l.take (i + 1) = l.take i ++ [l.getD i 0] := by
-  rw [List.take_succ]
+  rw [List.take_add_one]
   simp [List.getD_eq_getElem?_getD, List.getElem?_eq_getElem h]
 
 /-- the merge loop -/
